@@ -56,8 +56,9 @@ CONSTANTS Size,        \* size of the weighted semaphore (maxCapacity)
 (* adjustment from the clamped value.  The boundary configurations use Caps = small values \cup     *)
 (* {Size-1, Size, Size+1, far above} with Size - 1 - (largest small value) > MaxDial + 1, so that     *)
 (* every comparison the weighted semaphore makes comes out as with the real maxCapacity.             *)
-ASSUME /\ \A c \in Caps : c >= 0
-       /\ \A c \in InitCaps : c >= 0 /\ c <= Size
+(* The same holds for the value a listener is created with (NewSem): its effective cap is          *)
+(* Clamp(initCap).                                                                                   *)
+ASSUME \A c \in Caps \cup InitCaps : c >= 0
 
 Clamp(n) == IF n > Size THEN Size ELSE n
 
@@ -96,7 +97,7 @@ xv == <<c2, cr, dbl, restarts>>     \* overlapping-close / restart state, untouc
 Quiet == open = 0 /\ c2 = 0 /\ acc # "have" /\ \A i \in 1..MaxResize : tst[i] \notin {"spawned", "adjusted"}
 Wedged == Quiet /\ \E i \in 1..MaxResize : tst[i] \in {"waiting", "doomed"}
 C == INSTANCE ConnCapContract WITH applied <- {i \in 1..Len(req) : tst[i] = "done"},
-                                   req <- [i \in 1..Len(req) |-> Clamp(req[i])],
+                                   req <- [i \in 1..Len(req) |-> Clamp(req[i])], initCap <- Clamp(initCap),
                                    dropped <- 0, starved <- FALSE, stalled <- Wedged
 
 (* ---------------- x/sync/semaphore ---------------- *)
@@ -119,8 +120,8 @@ Release(k) ==
 
 Init ==
     /\ initCap \in InitCaps
-    /\ cur = Size - initCap /\ waiters = <<>>          \* NewSem: Acquire(maxCapacity - n)
-    /\ realCap = initCap /\ req = <<>>
+    /\ cur = Size - Clamp(initCap) /\ waiters = <<>>   \* NewSem: Acquire(maxCapacity - min(n, maxCapacity))
+    /\ realCap = Clamp(initCap) /\ req = <<>>
     /\ tst = [i \in Tuners |-> "none"] /\ td = [i \in Tuners |-> 0]
     /\ acc = "idle" /\ lclosed = FALSE /\ backlog = 0 /\ open = 0 /\ eof = 0 /\ dialed = 0 /\ errs = 0
     /\ c2 = 0 /\ cr = 0 /\ dbl = 0 /\ restarts = 0
@@ -305,7 +306,7 @@ Restart(n) ==
     /\ restarts < MaxRestart
     /\ open = 0 /\ c2 = 0 /\ cr = 0
     /\ restarts' = restarts + 1
-    /\ initCap' = n /\ realCap' = n /\ cur' = Size - n /\ waiters' = <<>>
+    /\ initCap' = n /\ realCap' = Clamp(n) /\ cur' = Size - Clamp(n) /\ waiters' = <<>>
     /\ req' = <<>> /\ tst' = [i \in Tuners |-> "none"] /\ td' = [i \in Tuners |-> 0]
     /\ acc' = "idle" /\ lclosed' = FALSE /\ backlog' = 0
     /\ last' = [a |-> "restart", n |-> n, d |-> n - realCap, rt |-> Len(req)]
@@ -377,6 +378,11 @@ BurstAtCap ==
     /\ (Len(req) = 0) => last'.a \in {"dial", "acq", "accept", "setmax"}      \* the server fills up first
     /\ (Len(req') > Len(req)) => acc = "waiting"
     /\ (Len(req) > 0 /\ Len(req) < MaxResize) => Len(req') > Len(req)
+
+(* action constraint for schedule generation, profile "cap values around maxCapacity": the first  *)
+(* cap change requests a value at or above Size - 1 (Caps = small values, Size-1, Size, Size+1, far   *)
+(* above); everything after it - further values, connections, overlapping - is free                  *)
+BoundaryFirst == (Len(req) = 0 /\ Len(req') = 1) => req'[1] >= Size - 1
 
 (* action constraint for schedule generation, profile "overlapping closes on a busy server": slots  *)
 (* come back only through connections that two overlapping Close calls are busy with (no plain      *)
